@@ -82,6 +82,9 @@ pub struct Profile {
     pub shuffle_items: u32,
     /// chance (n/8) per generated name to be a Rust keyword that WGSL does not reserve (in, dyn, box)
     pub keyword_names: u32,
+    /// chance (n/8) that the module declares type aliases and spells some member / variable /
+    /// parameter types through them
+    pub aliases: u32,
 }
 
 impl Profile {
@@ -120,6 +123,7 @@ impl Profile {
             phony_refs: 0,
             shuffle_items: 3,
             keyword_names: 0,
+            aliases: 2,
         }
     }
 }
@@ -129,6 +133,7 @@ impl Profile {
 
 pub struct Names {
     used: HashSet<String>,
+    hist: Vec<String>,
     n: usize,
     /// chance out of 64 that a fresh name is a Rust keyword WGSL does not reserve
     pub keywords: u32,
@@ -138,7 +143,7 @@ const NONASCII: [&str; 6] = ["ß", "ö", "Δ", "名", "é", "я"];
 
 impl Names {
     pub fn new() -> Self {
-        Names { used: HashSet::new(), n: 0, keywords: 0 }
+        Names { used: HashSet::new(), hist: Vec::new(), n: 0, keywords: 0 }
     }
     /// A fresh identifier unique up to case. `cap` = first letter upper-case (type-like).
     pub fn fresh(&mut self, ch: &mut Ch, prefix: &str, nonascii: u32) -> String {
@@ -150,6 +155,28 @@ impl Names {
             let c = *ch.pick(&cands);
             if self.used.insert(c.to_lowercase()) {
                 return c.to_string();
+            }
+        }
+        // an earlier name of the same kind with zeros added to its trailing number (`St3` -> `St03`,
+        // `St30`, `St003`): distinct identifiers that "natural" comparisons confuse
+        if !self.hist.is_empty() && ch.chance(1, 12) {
+            let same: Vec<&String> = self.hist.iter().filter(|h| h.to_lowercase().trim_start_matches('_').starts_with(&prefix.to_lowercase().trim_start_matches('_').to_string())).collect();
+            if !same.is_empty() {
+                let h = (*ch.pick(&same)).clone();
+                let digits_at = h.trim_end_matches(|c: char| !c.is_ascii_digit()).trim_end_matches(|c: char| c.is_ascii_digit()).len();
+                let tail_at = h.trim_end_matches(|c: char| !c.is_ascii_digit()).len();
+                if tail_at > digits_at {
+                    let (base, digits, tail) = (&h[..digits_at], &h[digits_at..tail_at], &h[tail_at..]);
+                    let s = match ch.below(3) {
+                        0 => format!("{base}0{digits}{tail}"),
+                        1 => format!("{base}00{digits}{tail}"),
+                        _ => format!("{base}{digits}0{tail}"),
+                    };
+                    if self.used.insert(s.to_lowercase()) {
+                        self.hist.push(s.clone());
+                        return s;
+                    }
+                }
             }
         }
         loop {
@@ -184,6 +211,7 @@ impl Names {
             }
             let key = s.to_lowercase();
             if self.used.insert(key) {
+                self.hist.push(s.clone());
                 return s;
             }
         }
@@ -285,6 +313,9 @@ pub fn gen_host_struct(ch: &mut Ch, p: &Profile, names: &mut Names, structs: &[S
     let mut members = Vec::new();
     // "explicit padding" mode: insert pad members so that the repr(C) layout of plain arrays matches WGSL
     let pad_mode = ch.chance(2, 8);
+    let rt_tail = allow_rt && p.ty.rt && ch.chance(2, 8);
+    // the runtime-sized array may be the only member
+    let n = if rt_tail && ch.chance(1, 4) { 0 } else { n };
     for _ in 0..n {
         let ty = gen_sized_ty(ch, &p.ty, structs, &nest_ok, 0);
         let mut m = Member::plain(&names.fresh(ch, "m", p.nonascii), ty);
@@ -309,7 +340,7 @@ pub fn gen_host_struct(ch: &mut Ch, p: &Profile, names: &mut Names, structs: &[S
         }
         members.push(m);
     }
-    if pad_mode {
+    if pad_mode && !members.is_empty() {
         let tmp = StructDef { name: String::new(), members: members.clone() };
         let sl = wgsl_struct_layout(&tmp, structs);
         let end = sl.offsets.last().unwrap() + member_size(members.last().unwrap(), structs);
@@ -317,7 +348,7 @@ pub fn gen_host_struct(ch: &mut Ch, p: &Profile, names: &mut Names, structs: &[S
             members.extend(explicit_pad_member(names, ch, sl.size - end));
         }
     }
-    if allow_rt && p.ty.rt && ch.chance(2, 8) {
+    if rt_tail {
         let e = gen_sized_ty(ch, &p.ty, structs, &nest_ok, 1);
         members.push(Member::plain(&names.fresh(ch, "rt", p.nonascii), Ty::RA(Box::new(e))));
     }
@@ -1224,6 +1255,42 @@ pub fn gen_shader(ch: &mut Ch, p: &Profile) -> Shader {
     }
     if ch.chance(p.shuffle_items, 8) {
         sh.item_shuffle = (ch.raw() as u64) << 1 | 1;
+    }
+    if ch.chance(p.aliases, 8) {
+        // candidate types: everything that occurs as a member, element, variable or parameter type
+        let mut cands: Vec<Ty> = Vec::new();
+        fn add(t: &Ty, out: &mut Vec<Ty>) {
+            if !out.contains(t) {
+                out.push(t.clone());
+            }
+            if let Ty::A(e, _) | Ty::RA(e) = t {
+                add(e, out);
+            }
+        }
+        for sd in &sh.structs {
+            for m in &sd.members {
+                add(&m.ty, &mut cands);
+            }
+        }
+        for g in &sh.globals {
+            if let GKind::Buf { ty, .. } = &g.kind {
+                add(ty, &mut cands);
+            }
+        }
+        for e in &sh.entries {
+            for prm in &e.params {
+                if let EParam::Loc { ty, .. } = prm {
+                    add(ty, &mut cands);
+                }
+            }
+        }
+        let n = ch.usize_range(1, 3).min(cands.len());
+        for _ in 0..n {
+            let i = ch.idx(cands.len());
+            let ty = cands.remove(i);
+            let uses = if ch.flip() { u32::MAX } else { ch.raw() | 1 };
+            sh.aliases.push(AliasDef { name: names.fresh(ch, "Al", 0), ty, uses });
+        }
     }
     if p.use_all_resources && !sh.entries.is_empty() {
         let reached: std::collections::BTreeSet<usize> = crate::expect::entry_reach(&sh).into_iter().flatten().collect();
